@@ -615,7 +615,6 @@ func sameSet(a, b []string) bool {
 // login: the browser opens the RP's login URL (rp.AuthURLHandler), follows the redirect to the provider, logs in, and
 // ends up holding the callback URL (code + state) without opening it yet.
 func (w *world) login(i int, o Op) {
-	res := w.res
 	state := o.State
 	if state == "huge" {
 		state = strings.Repeat("h", hugeState)
